@@ -57,7 +57,8 @@ def r2(p, rep):
     root = p.cls("Expression", "stage1.tree")
     printers = []
     for c in p.subclasses(root):
-        f = c.methods.get("__str__")
+        # the printer as it runs for this class: its own __str__, or an inherited one that looks the class up in a table
+        f = common.specialised(p, c, "__str__") if (c.methods.get("__str__") is not None or not p.subclasses(c, strict=True)) and p.lookup_method(c, "__str__") is not None else None
         if f is not None:
             printers.append((f"{c.name}.__str__", f))
     efn = p.module("adapter.einx_from_namedtensor")
@@ -393,24 +394,35 @@ def r10(p, rep):
     except NotLiteral:
         raise AnalysisError("anchor vanished: _parentheses table of the lexer")
     ell = p.cls("Ellipsis", "namedtensor.stage1.tree")
-    es = ell.methods.get("__str__")
+    es = common.specialised(p, ell, "__str__")  # its own method, or the row of a type-keyed printer table
     if es is None:
         raise AnalysisError("anchor vanished: stage1.Ellipsis.__str__")
     s0 = es.node.args.args[0].arg
+    # the printer and the helpers it hands its operand to (`_ellipsis_operand(self.inner)`): under which names the
+    # operand is known in each
+    views = [(es, {f"{s0}.inner"} | {t.id for a in ast.walk(es.node) if isinstance(a, ast.Assign) and norm(a.value) == f"{s0}.inner" for t in a.targets if isinstance(t, ast.Name)})]
+    for c_ in ast.walk(es.node):
+        if isinstance(c_, ast.Call):
+            r_ = resolve_callee(p, c_, es.module)
+            if r_ and r_[0] == "func" and r_[1].module is es.module and r_[1].cls is None:
+                for i_, a_ in enumerate(c_.args):
+                    if norm(a_) in views[0][1] and i_ < len(r_[1].params):
+                        views.append((r_[1], {r_[1].params[i_]}))
     wrapped = set()
-    for n in ast.walk(es.node):
-        aliases = {f"{s0}.inner"} | {t.id for a in ast.walk(es.node) if isinstance(a, ast.Assign) and norm(a.value) == f"{s0}.inner" for t in a.targets if isinstance(t, ast.Name)}
-        if isinstance(n, ast.Call) and isinstance(n.func, ast.Name) and n.func.id == "isinstance" and len(n.args) == 2 and norm(n.args[0]) in aliases:
-            wrapped |= {x.id for x in ast.walk(n.args[1]) if isinstance(x, ast.Name)}
+    for fn_, aliases in views:
+        for n in ast.walk(fn_.node):
+            if isinstance(n, ast.Call) and isinstance(n.func, ast.Name) and n.func.id == "isinstance" and len(n.args) == 2 and norm(n.args[0]) in aliases:
+                wrapped |= {x.id for x in ast.walk(n.args[1]) if isinstance(x, ast.Name)}
 
     # (b) a class flag consulted by the printer: `if not self.inner._is_atomic: inner = "{" + inner + "}"`
     flag, wrap_when = None, None
-    ecfg = common.cfg_of(es)
-    for a in walk_no_nested(es.node):
-        if isinstance(a, (ast.Assign, ast.Return)) and a.value is not None and any(isinstance(x, ast.Constant) and isinstance(x.value, str) and x.value in ("(", "[", "{") for x in ast.walk(a.value)):
-            for t, pol in ecfg.guards_of_ast(a):
-                if isinstance(t, ast.Attribute) and norm(t.value) in ({f"{s0}.inner"} | {tt.id for aa in ast.walk(es.node) if isinstance(aa, ast.Assign) and norm(aa.value) == f"{s0}.inner" for tt in aa.targets if isinstance(tt, ast.Name)}):
-                    flag, wrap_when = t.attr, pol
+    for fn_, aliases in views:
+        ecfg = common.cfg_of(fn_)
+        for a in walk_no_nested(fn_.node):
+            if isinstance(a, (ast.Assign, ast.Return)) and a.value is not None and any(isinstance(x, ast.Constant) and isinstance(x.value, str) and x.value in ("(", "[", "{") for x in ast.walk(a.value)):
+                for t, pol in ecfg.guards_of_ast(a):
+                    if isinstance(t, ast.Attribute) and norm(t.value) in aliases:
+                        flag, wrap_when = t.attr, pol
 
     def flag_of(c):
         for k in p.mro(c):
@@ -424,7 +436,7 @@ def r10(p, rep):
     from sa.exh import _constructed_names
 
     def shape_of(c):
-        f = p.lookup_method(c, "__str__")
+        f = common.specialised(p, c, "__str__")
         if f is None:
             return "inherited"
         kinds = set()
